@@ -2,6 +2,7 @@
 //! `vh <prop> run`                reads cases on stdin, runs the real library, one result line per case
 mod util;
 mod c02;
+mod c09;
 mod c20;
 
 fn main() {
@@ -18,6 +19,8 @@ fn main() {
     match (prop, mode) {
         ("c02", "gen") => c02::gen(seed, thorough),
         ("c02", "run") => c02::run(),
+        ("c09", "gen") => c09::gen(seed, thorough),
+        ("c09", "run") => c09::run(),
         ("c20", "gen") => c20::gen(seed, thorough),
         ("c20", "run") => c20::run(),
         _ => {
